@@ -22,7 +22,12 @@ func makeBools() Column {
 
 // Grow grows the size of the column until we have enough to store
 func (c *columnBool) Grow(idx uint32) {
-	c.data.Grow(idx)
+
+	// Readers look at the bitmap without the column lock: grow a copy and publish it
+	// once it holds the current bits, so they never see the zeroed, not yet copied one.
+	data := c.data
+	data.Grow(idx)
+	c.data = data
 }
 
 // Apply applies a set of operations to the column.
